@@ -35,3 +35,44 @@ Theorem C01_blocked_dofs_do_not_alias :
                          (bs * i1 + c1 = bs * i2 + c2)%Z -> i1 = i2 /\ c1 = c2.
 Proof. exact blocked_layout_bijective. Qed.
 Print Assumptions C01_blocked_dofs_do_not_alias.
+
+(* ---- the algebraic core of the pipeline: argument factorisation (ffcx/ir/analysis/factorization.py) ----
+   For every scalar integrand that is multilinear in the sense UFL's arity checker enforces, in every
+   commutative ring with a conjugation that fixes the argument values, the dictionary {argkey: factor} the
+   handlers build has the value of the integrand:  integrand = sum_k factor_k * prod (arguments of k).
+   The model is tied to the code by harness/factcorr.py (same integrands, exact values, every run). *)
+From Coq Require Import Sorted.
+From FFCX Require Import Fact.
+
+Theorem C01_argument_factorisation_preserves_the_integrand :
+  forall (R : Type) (r0 r1 : R) (radd rmul rsub : R -> R -> R) (ropp rinv rconj : R -> R),
+    Ring_theory.ring_theory r0 r1 radd rmul rsub ropp eq ->
+    (forall x y, rconj (radd x y) = radd (rconj x) (rconj y)) ->
+    (forall x y, rconj (rmul x y) = rmul (rconj x) (rconj y)) ->
+    rconj r0 = r0 -> rconj r1 = r1 ->
+    forall (truth : R -> bool) (aval atom : nat -> R) (op1 : nat -> R -> R) (op2 : nat -> R -> R -> R),
+    (forall i, rconj (aval i) = aval i) ->
+    forall (argn : nat -> nat) (e : sx) (m : fac),
+      wf argn e -> factorize e = Some m -> m <> [] ->
+      eval R r0 r1 radd rmul rinv rconj truth aval atom op1 op2 e =
+      fsum R r0 r1 radd rmul rinv rconj truth aval atom op1 op2 m.
+Proof.
+  intros R r0 r1 radd rmul rsub ropp rinv rconj Rth ca cm c0 c1 truth aval atom op1 op2 areal argn e m W H Hne.
+  destruct (factorize_sound R r0 r1 radd rmul rsub ropp rinv rconj Rth ca cm c0 c1 truth aval atom op1 op2 areal argn e m W H) as [_ E].
+  apply E. destruct m; [contradiction|reflexivity].
+Qed.
+Print Assumptions C01_argument_factorisation_preserves_the_integrand.
+
+(* the dictionary has one entry per argkey, keys are sorted and mention only arguments of the integrand *)
+Theorem C01_factorisation_keys_are_canonical :
+  forall (argn : nat -> nat) (e : sx) (m : fac),
+    wf argn e -> factorize e = Some m ->
+    NoDup (map fst m) /\ (forall k, In k (map fst m) -> StronglySorted le k /\ forall i, In i k -> In (argn i) (nums argn e)).
+Proof.
+  intros argn e m W H.
+  destruct (factorize_sound Z 0%Z 1%Z Z.add Z.mul Z.sub Z.opp (fun x => x) (fun x => x) Zth
+              (fun _ _ => eq_refl) (fun _ _ => eq_refl) eq_refl eq_refl (fun _ => true) (fun _ => 0%Z) (fun _ => 0%Z)
+              (fun _ x => x) (fun _ x _ => x) (fun _ => eq_refl) argn e m W H) as [[N [K _]] _].
+  split; [exact N|exact K].
+Qed.
+Print Assumptions C01_factorisation_keys_are_canonical.
